@@ -116,11 +116,16 @@ func runSessState(c *core.Ctx) {
 	for _, call := range callsNamed(start, "context.WithValue") {
 		v := an.Unwrap(call.Call.Args[2])
 		fresh := false
-		if a, ok := v.(*ssa.Alloc); ok && a.Parent() == start && strings.Contains(typeNameOf(a.Type()), "CtxValue") {
+		qt, _ := quotaValueType(c)
+		isQuotaValue := func(t types.Type) bool {
+			tn := typeNameOf(t)
+			return strings.Contains(tn, "CtxValue") || qt != "" && tn == qt
+		}
+		if a, ok := v.(*ssa.Alloc); ok && a.Parent() == start && isQuotaValue(a.Type()) {
 			fresh = true
 		}
 		// … or built by a constructor that returns nothing but its own allocation
-		if cc, ok := v.(*ssa.Call); ok && cc.Parent() == start && strings.Contains(typeNameOf(cc.Type()), "CtxValue") {
+		if cc, ok := v.(*ssa.Call); ok && cc.Parent() == start && isQuotaValue(cc.Type()) {
 			if g := an.StaticCallee(&cc.Call); g != nil && an.InModuleFn(g) && freshResult(g, 0) {
 				fresh = true
 			}
@@ -139,13 +144,21 @@ func runSessState(c *core.Ctx) {
 func runQuotaGuard(c *core.Ctx) {
 	P := c.P
 	var req, cls *ssa.Function
+	// the per-connection quota value: the type whose fresh instance the quota's ServeNostrStart
+	// puts into the context, and its set field (a map keyed by subscription id) — `…CtxValue.subs`
+	// on the pinned tree, found by role so that a renamed / regrouped value is still found
+	quotaType, setSuffix := quotaValueType(c)
+	isQuota := func(fn *ssa.Function) bool {
+		rt := recvTypeName(fn)
+		return strings.Contains(strings.ToLower(rt), "maxsubscriptions") || quotaType != "" && rt == quotaType
+	}
 	for _, fn := range P.ModFuncs {
-		if !strings.Contains(recvTypeName(fn), "MaxSubscriptions") || fn.Parent() != nil {
+		if !isQuota(fn) || fn.Parent() != nil {
 			continue
 		}
-		if len(mapUpdatesOn(fn, ".subs")) > 0 {
+		if len(mapUpdatesOn(fn, setSuffix)) > 0 {
 			req = fn
-		} else if len(mapDeletesOn(fn, ".subs")) > 0 {
+		} else if len(mapDeletesOn(fn, setSuffix)) > 0 {
 			cls = fn
 		}
 	}
@@ -154,7 +167,7 @@ func runQuotaGuard(c *core.Ctx) {
 		return
 	}
 	c.CountFuncs(2)
-	mu := mapUpdatesOn(req, ".subs")[0]
+	mu := mapUpdatesOn(req, setSuffix)[0]
 	setPath := an.PathOf(mu.Map)
 	msg := ""
 	for _, p := range req.Params {
@@ -172,7 +185,7 @@ func runQuotaGuard(c *core.Ctx) {
 	if msg == "" {
 		var host *ssa.Function
 		for _, fn := range P.ModFuncs {
-			if !strings.Contains(recvTypeName(fn), "MaxSubscriptions") || fn.Parent() != nil || fn == req {
+			if !isQuota(fn) || fn.Parent() != nil || fn == req {
 				continue
 			}
 			hm := ""
@@ -181,7 +194,11 @@ func runQuotaGuard(c *core.Ctx) {
 					hm = "p:" + p.Name()
 				}
 			}
-			if cs := callsTo(fn, req); hm != "" && len(cs) == 1 {
+			cs := callsTo(fn, req)
+			if hm == "" && len(cs) == 1 {
+				hm = clauseMsgParam(fn, cs[0], "ClientReqMsg")
+			}
+			if hm != "" && len(cs) == 1 {
 				host, site, msg = fn, cs[0], hm
 			}
 		}
@@ -208,7 +225,17 @@ func runQuotaGuard(c *core.Ctx) {
 		}
 		okHost := helperRej != nil && helperFwd != nil
 		nRej, nFwd := 0, 0
+		hostTakesIface := false
+		for _, p := range host.Params {
+			if "p:"+p.Name() == msg && typeNameOf(p.Type()) == "ClientMsg" {
+				hostTakesIface = true
+			}
+		}
 		for _, r := range classifyClientReturns(P, host, paramIdx(host, msg), 0) {
+			// a dispatching method: only the returns of its REQ clause are the REQ handler's
+			if hostTakesIface && assertedType(host, r.ret.Block(), msg) != "ClientReqMsg" {
+				continue
+			}
 			verdict, guarded := false, false
 			for _, g := range an.Guards(host, r.ret.Block()) {
 				if g.V == ssa.Value(site) {
@@ -324,7 +351,7 @@ func runQuotaGuard(c *core.Ctx) {
 				}
 			}
 		}
-		if notMember && insertOnlyWhenForwarded && len(mapDeletesOn(req, ".subs")) == 0 {
+		if notMember && insertOnlyWhenForwarded && len(mapDeletesOn(req, setSuffix)) == 0 {
 			c.Check(sym != "" && strings.HasPrefix(sym, "recv.") && rs.Equal(an.Range(0, an.PosInf)), nil, fname(c, req), "reject-set", P.Pos(rej.Pos()),
 				"before inserting the id: a new id is rejected iff len(set) ∈ "+rs.Format("N")+" with N = "+sym+"; an id that is already open passes",
 				"a new id is rejected when len(set) ∈ "+rs.Format("N")+" (N = "+sym+"), want [N,+∞) measured before inserting it: more (or fewer) than N subscriptions can be open")
@@ -337,7 +364,7 @@ func runQuotaGuard(c *core.Ctx) {
 			"after inserting the id: rejected iff len(set) ∈ "+rs.Format("N")+" with N = "+sym, "rejected when len(set) ∈ "+rs.Format("N")+" (N = "+sym+"), want (N,+∞) measured after inserting the id: more (or fewer) than N subscriptions can be open")
 		// the reject edge removes the same id
 		okDel := false
-		for _, d := range mapDeletesOn(req, ".subs") {
+		for _, d := range mapDeletesOn(req, setSuffix) {
 			if an.PathOf(d.Call.Args[1]) == id && (d.Block() == rej.Block() || d.Block().Dominates(rej.Block())) && !(d.Block() == fwd.Block() || d.Block().Dominates(fwd.Block())) {
 				okDel = true
 			}
@@ -376,7 +403,7 @@ func runQuotaGuard(c *core.Ctx) {
 		}
 	}
 	okCls := false
-	for _, d := range mapDeletesOn(cls, ".subs") {
+	for _, d := range mapDeletesOn(cls, setSuffix) {
 		kp := an.PathOf(d.Call.Args[1])
 		if cm != "" && kp == cm+".SubscriptionID" {
 			okCls = true
@@ -390,7 +417,7 @@ func runQuotaGuard(c *core.Ctx) {
 		// the removal as a method of the per-connection value (`v.release(msg.SubscriptionID)`): the
 		// CLOSE handler calls it with its message's id, and the method deletes exactly its parameter
 		for _, fn := range P.ModFuncs {
-			if !strings.Contains(recvTypeName(fn), "MaxSubscriptions") || fn.Parent() != nil || fn == cls {
+			if !isQuota(fn) || fn.Parent() != nil || fn == cls {
 				continue
 			}
 			hm := ""
@@ -401,13 +428,16 @@ func runQuotaGuard(c *core.Ctx) {
 			}
 			for _, site := range callsTo(fn, cls) {
 				if hm == "" {
+					hm = clauseMsgParam(fn, site, "ClientCloseMsg")
+				}
+				if hm == "" {
 					continue
 				}
 				for i, a := range site.Call.Args {
 					if an.PathOf(a) != hm+".SubscriptionID" || i >= len(cls.Params) {
 						continue
 					}
-					for _, d := range mapDeletesOn(cls, ".subs") {
+					for _, d := range mapDeletesOn(cls, setSuffix) {
 						// on every path of the method
 						always := true
 						for _, rb := range an.ReturnBlocks(cls) {
@@ -424,6 +454,54 @@ func runQuotaGuard(c *core.Ctx) {
 		}
 	}
 	c.Check(okCls, nil, fname(c, cls), "close-frees", P.Pos(cls.Pos()), "CLOSE removes its subscription id from the set", "CLOSE does not free the slot of its subscription id")
+}
+
+// clauseMsgParam: fn takes the message as the ClientMsg interface and the call site lies in the
+// clause of its type switch that handles msgType: the parameter's path ("p:msg").
+func clauseMsgParam(fn *ssa.Function, site *ssa.Call, msgType string) string {
+	for _, p := range fn.Params {
+		if typeNameOf(p.Type()) == "ClientMsg" && assertedType(fn, site.Block(), "p:"+p.Name()) == msgType {
+			return "p:" + p.Name()
+		}
+	}
+	return ""
+}
+
+// quotaValueType: the named type of the value MaxSubscriptions' ServeNostrStart stores in the
+// context (directly allocated or built by a constructor), and ".<field>" of its map field.
+func quotaValueType(c *core.Ctx) (typ, setSuffix string) {
+	setSuffix = ".subs"
+	var start *ssa.Function
+	for _, b := range mwBases(c.P) {
+		if strings.Contains(b.name, "MaxSubscriptions") {
+			start = b.start
+		}
+	}
+	if start == nil {
+		return "", setSuffix
+	}
+	for _, call := range callsNamed(start, "context.WithValue") {
+		t := an.Unwrap(call.Call.Args[2]).Type()
+		if pt, ok := t.Underlying().(*types.Pointer); ok {
+			t = pt.Elem()
+		}
+		n, ok := t.(*types.Named)
+		if !ok {
+			continue
+		}
+		st, ok := n.Underlying().(*types.Struct)
+		if !ok {
+			continue
+		}
+		for i := 0; i < st.NumFields(); i++ {
+			if m, isMap := st.Field(i).Type().Underlying().(*types.Map); isMap {
+				if b, isB := m.Key().Underlying().(*types.Basic); isB && b.Kind() == types.String {
+					return an.TypeNameHook(n.Obj()), "." + an.FieldNameHook(st, i)
+				}
+			}
+		}
+	}
+	return "", setSuffix
 }
 
 func paramIdx(fn *ssa.Function, path string) int {
